@@ -219,6 +219,6 @@ pub fn def() -> PropDef {
         rule: "schedules of up to 30 steps on a real client Session whose secure channel is attached to a fake transport owned by the harness: start a publish call (up to two in flight, each polled until its request reaches the transport), answer a call in flight with a data notification of one of three subscriptions, a ServiceFault, a transport error, a timeout or an unexpected response; every history ends with all calls answered and two successful publishes; oracle: every acknowledgement in a request was received before, is in no other unanswered or successful request, and after the end every received (subscription, sequence number) pair - apart from the one carried by the very last response - was carried by exactly one successful request; non-trivial = a failed call between two successful ones with acknowledgements outstanding; distinct = distinct schedule",
         assumptions: &["only data notifications are delivered (keep-alive messages are not notifications)", "the harness answers every request itself; the real transport, its timers and the session event loop are not run"],
         abort_possible: false,
-        parts: |tier| vec![part("publish_schedule", tier.pick(1500, 40000), prop::collection::vec(op(), 1..30), run)],
+        parts: |tier| vec![part("publish_schedule", tier.pick(1500, 2_000_000), prop::collection::vec(op(), 1..30), run)],
     }
 }
